@@ -139,11 +139,11 @@ fn has_here_doc(debug: &str) -> bool {
 
 // ------------------------------------------------------------------ grammar-based generator
 
-struct G<'a> {
-    rng: &'a mut Rng,
+pub struct G<'a> {
+    pub rng: &'a mut Rng,
     /// here-document bodies waiting for the next newline
-    pending: Vec<String>,
-    budget: i32,
+    pub pending: Vec<String>,
+    pub budget: i32,
 }
 
 const NAMES: [&str; 5] = ["a", "b", "x1", "_v", "foo"];
@@ -357,7 +357,11 @@ impl G<'_> {
         if depth == 0 || self.budget < 0 || self.rng.chance(50) {
             return self.simple(depth);
         }
-        let d = depth - 1;
+        self.compound(depth)
+    }
+    /// a compound command (or function definition) followed by optional redirections
+    pub fn compound(&mut self, depth: u32) -> String {
+        let d = depth.max(1) - 1;
         let mut s = match self.rng.below(10) {
             0 => format!("{{ {}{}}}", self.clist(d, false), self.term()),
             1 => format!("({})", self.clist(d, false)),
